@@ -36,10 +36,29 @@ def _args_of(text, call):
     return text[j:k - 1]
 
 
+def _const_value(name):
+    """Integer value of `const NAME: T = <int>;` somewhere under src/ (mechanical lookup, stated in the evidence)."""
+    import os
+    root = os.path.join(unitgen.REPO, 'src')
+    for dp, _, fns in os.walk(root):
+        for fn in fns:
+            if fn.endswith('.rs'):
+                try:
+                    t = open(os.path.join(dp, fn)).read()
+                except Exception:
+                    continue
+                m = re.search(r'\bconst\s+%s\s*:\s*[a-z0-9]+\s*=\s*([0-9_]+)\s*;' % re.escape(name), t)
+                if m:
+                    return m.group(1).replace('_', '')
+    raise LostAnchor('constant %s not found as an integer literal' % name)
+
+
 def _expr_to_spec(e, selfdot=False):
     e = re.sub(r'//[^\n]*', '', e).strip()
     if selfdot:
         e = e.replace('self.do_optimize', 'do_optimize')
+    for name in set(re.findall(r'\b[A-Z][A-Z0-9_]+\b', e)):
+        e = re.sub(r'\b%s\b' % name, _const_value(name), e)
     if not re.fullmatch(r'[\sa-z_0-9|&<>=!()]+', e):
         raise LostAnchor('option expression outside the supported form: %r' % e)
     return e
@@ -132,8 +151,8 @@ def render(mode=None, canary=None):
     w('pub open spec fn tool_optimize(do_optimize: bool, stepping: int) -> bool { %s }' % t_opt)
     w('pub open spec fn tool_frontend_opt(do_optimize: bool, stepping: int) -> bool { %s }' % t_fe)
     w('// the flag each path hands to the classic post-optimiser (4th argument of maybe_finalize_program_via_classic_optimizer)')
-    w('pub open spec fn lib_finalize_flag(do_optimize: bool) -> bool { %s }' % _expr_to_spec(c_fin[3]))
-    w('pub open spec fn tool_finalize_flag(do_optimize: bool) -> bool { %s }' % _expr_to_spec(t_fin[3], True))
+    w('pub open spec fn lib_finalize_flag(do_optimize: bool, stepping: int) -> bool { %s }' % _expr_to_spec(c_fin[3]))
+    w('pub open spec fn tool_finalize_flag(do_optimize: bool, stepping: int) -> bool { %s }' % _expr_to_spec(t_fin[3], True))
     w('// compile_clvm_text (Python / wasm / file-to-file entry) calls compile_clvm_text_maybe_opt with this do_optimize')
     w('pub open spec fn wrapper_do_optimize() -> bool { %s }' % _expr_to_spec(w_args[1]))
     w('pub open spec fn same_opts_argument() -> bool { %s }' % ('true' if norm(c_cf[2]) == norm(c_fin[2]) == 'opts' and norm(t_cf[2]) == norm(t_fin[2]) == 'opts' else 'false'))
@@ -144,7 +163,7 @@ def render(mode=None, canary=None):
     w('        forall|d: bool, s: int| lib_optimize(d, s) == (d || s > 22) && lib_frontend_opt(d, s) == (s == 22),')
     w('{}')
     w('pub proof fn post_optimiser_gets_the_same_flag()')
-    w('    ensures forall|d: bool| lib_finalize_flag(d) == tool_finalize_flag(d) && lib_finalize_flag(d) == d, same_opts_argument(),')
+    w('    ensures forall|d: bool, s: int| lib_finalize_flag(d, s) == tool_finalize_flag(d, s) && lib_finalize_flag(d, s) == d, same_opts_argument(),')
     w('{}')
     w('pub proof fn library_entry_requests_optimisation()')
     w('    ensures wrapper_do_optimize() == true,')
@@ -152,8 +171,8 @@ def render(mode=None, canary=None):
     w('// with compile_file and the post-optimiser as uninterpreted functions of (options, text) the emitted programs are equal')
     w('pub uninterp spec fn compile_file_fn(optimize: bool, frontend_opt: bool, stepping: int, text: Seq<char>) -> Seq<u8>;')
     w('pub uninterp spec fn finalize_fn(optimize: bool, frontend_opt: bool, stepping: int, flag: bool, prog: Seq<u8>) -> Seq<u8>;')
-    w('pub open spec fn lib_program(d: bool, s: int, text: Seq<char>) -> Seq<u8> { finalize_fn(lib_optimize(d, s), lib_frontend_opt(d, s), s, lib_finalize_flag(d), compile_file_fn(lib_optimize(d, s), lib_frontend_opt(d, s), s, text)) }')
-    w('pub open spec fn tool_program(d: bool, s: int, text: Seq<char>) -> Seq<u8> { finalize_fn(tool_optimize(d, s), tool_frontend_opt(d, s), s, tool_finalize_flag(d), compile_file_fn(tool_optimize(d, s), tool_frontend_opt(d, s), s, text)) }')
+    w('pub open spec fn lib_program(d: bool, s: int, text: Seq<char>) -> Seq<u8> { finalize_fn(lib_optimize(d, s), lib_frontend_opt(d, s), s, lib_finalize_flag(d, s), compile_file_fn(lib_optimize(d, s), lib_frontend_opt(d, s), s, text)) }')
+    w('pub open spec fn tool_program(d: bool, s: int, text: Seq<char>) -> Seq<u8> { finalize_fn(tool_optimize(d, s), tool_frontend_opt(d, s), s, tool_finalize_flag(d, s), compile_file_fn(tool_optimize(d, s), tool_frontend_opt(d, s), s, text)) }')
     w('pub proof fn same_program(d: bool, s: int, text: Seq<char>)')
     w('    ensures lib_program(d, s, text) == tool_program(d, s, text)')
     w('{ entry_points_derive_the_same_options(); post_optimiser_gets_the_same_flag(); }')
